@@ -71,7 +71,10 @@ def main():
     state = {'last_fail': None}
 
     if fam.setup is not None:
-        fam.setup()
+        try:
+            fam.setup()  # warm-up only (lazy imports); its verdicts are ignored
+        except (Violation, Inconclusive):
+            pass
 
     def account(info, params):
         out['evaluations'] += 1
